@@ -366,7 +366,8 @@ def d5b(chk, prog):
     """serial and parallel read counting: same bins in the same order, the caller's min_mapq at every region_depth_count"""
     fi = prog.fn(f"{COV}.interval_coverages_count")
     tb = Table(chk, "ordered-fanout", "interval_coverages_count: (bin, min_mapq, alignment file, reference) reaching region_depth_count, procs=1 vs procs=3", fi.loc(), fi.qn)
-    rows = [dict(chromosome=c, start=s, end=s + 100, gene=f"g{c}{s}") for c, s in (("chr1", 0), ("chr1", 500), ("chr2", 100), ("chr3", 0), ("chr3", 300), ("chr3", 700))]       # bin counts 2, 1, 3: not a self-inverse order by size
+    rows = [dict(chromosome=c, start=s, end=s + 100, gene=f"g{c}{s}") for c, s in (("chr1", 0), ("chr1", 500), ("chr2", 100), ("chr3", 0), ("chr3", 300), ("chr3", 700))]
+    rows.insert(4, dict(chromosome="chr3", start=0, end=100, gene="same-interval-other-name"))          # one interval listed twice under two names (an exon shared by two genes): two rows, each with its own name       # bin counts 2, 1, 3: not a self-inverse order by size
     null = ast.literal_eval(prog.module("cnvlib.params").assigns["NULL_LOG2_COVERAGE"])
     for mq, fasta in itertools.product([0, 30], [None, "ref.fa"]):
         traces = {}
@@ -554,6 +555,7 @@ def run(chk):
     d8(chk, prog)
     chk.clause("D6", "the bins' names reach the read-count path whole: BED readers keep the 4th tab-separated field (C08 rule)")
     C08.d1_bed_names(chk, prog)
+    C08.d3c_foreign_files(chk, prog)          # ... and a regions file is read as the format it is in (the read-count path auto-detects it; C08-D3c rule)
     chk.clause("CLI", "the `coverage` command line: BAM / regions in their roles, -c, -q, -p, -f reach do_coverage as given")
     from .. import cliglue
     cliglue.check_coverage(chk, prog)
